@@ -113,7 +113,7 @@ func TestCheck(t *testing.T) {
 	r.Set("traces_validated_against_impl", transitions)
 	r.Set("distinct_nontrivial", states)
 	r.Set("rule", fmt.Sprintf("BFS over {store, revert} histories to depth %d; for EVERY store transition S->S.b the block is reverted (a) by a fresh node and (b) by the same long-lived node, and the KV image must equal image(S) "+
-		"(on residue: full Reader-API sweep + storing a further block must agree with the never-stored twin); fork pairs X,Y of depth<=2 from every state of depth<=%d: S.X.revert^|X|.Y == S.Y", depth, forkDepthLimit))
+		"(on residue: full Reader-API sweep + storing a further block must agree with the never-stored twin); fork pairs X,Y of depth<=2 from every state of depth<=%d: S.X.revert^|X|.Y == S.Y, on one long-lived node and (|X|=1) across process lifetimes: graceful shutdown + restart after X, ungraceful restart after Y", depth, forkDepthLimit))
 	r.Finish()
 }
 
@@ -217,6 +217,9 @@ func checkForks(r *ev.Run, s *hist.Node, at func(uint64) string, newState bool, 
 	type job struct {
 		xi, yi int
 		br     []*chain.Entry
+		// restarts: the fork switch spans process lifetimes - graceful shutdown (running-filter snapshot written) and
+		// restart after the X branch was stored, ungraceful restart after Y was stored
+		restarts bool
 	}
 	var jobs []job
 	for xi := range alpha {
@@ -233,13 +236,17 @@ func checkForks(r *ev.Run, s *hist.Node, at func(uint64) string, newState bool, 
 		for _, br := range branches {
 			for yi := range alpha {
 				if kids[yi] != nil && yi != xi {
-					jobs = append(jobs, job{xi, yi, br})
+					jobs = append(jobs, job{xi, yi, br, false})
+					if len(br) == 1 {
+						jobs = append(jobs, job{xi, yi, br, true})
+					}
 				}
 			}
 		}
 	}
 	ev.Par(len(jobs), 14, func(ji int) {
 		j := jobs[ji]
+		lab := label
 		x, y, br, yi := alpha[j.xi], alpha[j.yi], j.br, j.yi
 		exotic := s.Exotic()
 		if exotic == "" && (strings.HasSuffix(x.Name, "sys1.clear") || strings.HasSuffix(y.Name, "sys1.clear") || (len(br) > 1 && br[1].Spec.Diff != nil && clearsSys1(br[1]))) {
@@ -256,6 +263,14 @@ func checkForks(r *ev.Run, s *hist.Node, at func(uint64) string, newState bool, 
 			}
 			parent = e
 		}
+		if j.restarts {
+			if err := bc.WriteRunningEventFilter(); err != nil {
+				r.Infra("fork pair: graceful shutdown: %v", err)
+			}
+			bc = chain.NewNode(d, newState)
+			lab += " [graceful restart before the revert, ungraceful after the switch]"
+			r.Add("fork_pairs_across_restarts", 1)
+		}
 		for range br {
 			if err := bc.RevertHead(); err != nil {
 				r.Outcome("revert-fails")
@@ -263,8 +278,11 @@ func checkForks(r *ev.Run, s *hist.Node, at func(uint64) string, newState bool, 
 			}
 		}
 		if err := chain.StoreSync(bc, kids[yi].e.Fresh(s.Head())); err != nil {
-			r.Violate(fmt.Sprintf("fork-switch-fails %s depth=%d%s", label, len(br), exotic), map[string]any{"path": s.PathString(), "x": x.Name, "y": y.Name, "err": err.Error()})
+			r.Violate(fmt.Sprintf("fork-switch-fails %s depth=%d%s", lab, len(br), exotic), map[string]any{"path": s.PathString(), "x": x.Name, "y": y.Name, "err": err.Error()})
 			return
+		}
+		if j.restarts {
+			bc = chain.NewNode(d, newState)
 		}
 		if chain.ImageHash(d) == kids[yi].key {
 			r.Outcome("fork-converges-image-identical")
@@ -273,7 +291,7 @@ func checkForks(r *ev.Run, s *hist.Node, at func(uint64) string, newState bool, 
 		probe := probeOf(s, append(append([]*chain.Entry{}, br...), kids[yi].e)...)
 		twin := chain.NewNode(kids[yi].db.Copy(), newState)
 		if diff := chain.DiffObs(chain.Observe(bc, probe, false), chain.Observe(twin, probe, false)); len(diff) > 0 {
-			r.Violate(fmt.Sprintf("fork-does-not-converge %s depth=%d question=%s%s", label, len(br), strings.SplitN(diff[0], "(", 2)[0], exotic),
+			r.Violate(fmt.Sprintf("fork-does-not-converge %s depth=%d question=%s%s", lab, len(br), strings.SplitN(diff[0], "(", 2)[0], exotic),
 				map[string]any{"path": s.PathString(), "x": x.Name, "x2": brName(br), "y": y.Name, "differing": diff})
 		} else {
 			r.Outcome("fork-converges-internal-residue-only")
